@@ -3,7 +3,7 @@ from __future__ import annotations
 
 import numpy as np
 
-from .. import gen
+from .. import gen, repo
 from ..oracle import embed, refq
 
 ID = "C10"
@@ -177,6 +177,27 @@ def run_case(spec, ctx, R):
             ctx.check("shapes_finite", ok, site=site, tags=[cls], detail={"n": n, "budget": budget})
             if not ok:
                 continue
+            if (vi + bi + spec["idx"]) % 4 == 0:
+                # the other call forms of the same computation (two-value return with return_diagnostics omitted / False, verbose=True): what
+                # they return is judged by the same clauses (unitary Q, Q T Q^H = A within the tolerance-governed bound)
+                sweeps_ = budget + 1
+                sb_ = CS * n * (tol_eff(fn, kw, tol, n) * max(1.0, nrm) + EPS * (sweeps_ + n) * nrm) + 1e-300
+                for form, extra in (("plain_return", {}), ("verbose", {"verbose": True, "return_diagnostics": True}),
+                                    ("diagnostics_false", {"return_diagnostics": False})):
+                    try:
+                        with repo.quiet():
+                            o2 = f(A, max_iter=budget, tol=tol, **extra, **kw)
+                    except Exception as e:
+                        ctx.check("unexpected_exception", False, site=site + ":" + form, tags=[cls], detail={"exception": repr(e)[:200], "n": n, "budget": budget})
+                        continue
+                    ctx.hit("callform:" + form)
+                    ok2 = isinstance(o2, tuple) and len(o2) == (3 if extra.get("return_diagnostics") else 2) and \
+                        getattr(o2[0], "shape", None) == (n, n) and getattr(o2[1], "shape", None) == (n, n) and refq.is_finite(o2[0]) and refq.is_finite(o2[1])
+                    ctx.check("shapes_finite", ok2, site=site + ":" + form, tags=[cls], detail={"n": n, "budget": budget})
+                    if ok2:
+                        ctx.check("Q_unitary", refq.orth_err(o2[0]), C * n * EPS * (sweeps_ + n), site=site + ":" + form, tags=[cls])
+                        ctx.check("similarity", refq.fro(refq.matmul(refq.matmul(o2[0], o2[1]), refq.herm(o2[0])) - A), sb_, site=site + ":" + form, tags=[cls],
+                                  detail={"n": n, "budget": budget, "tol": tol})
             wf = isinstance(dg, dict) and isinstance(dg.get("converged"), (bool, np.bool_)) and isinstance(dg.get("iterations"), list)
             ctx.check("diagnostics_wellformed", wf, site=site, tags=[cls])
             if not wf:
